@@ -74,6 +74,12 @@ static Verdict oracle_c09(const Plan &p, const RunResult &r) {
         // per-thread state of the caller: each thread runs with its own signal mask and must have it at the real exec and afterwards
         if (o->thr >= 0 && (o->before.sig_sum != o->at_exec.sig_sum || o->before.sig_sum != o->after.sig_sum))
             return bad("thread-signal-mask-changed", "call #" + std::to_string(cv.opi) + " (thread " + std::to_string(o->thr) + "): the signal mask or the dispositions the thread had when it called exec are different " + (o->before.sig_sum != o->at_exec.sig_sum ? "when the real exec is entered" : "after the call"));
+        // state that belongs to the whole process: alone, a call leaves it as it found it - so whatever the interleaving, every call finds and leaves
+        // what the process had before the batch (a save/set/restore sequence of one thread interleaved with another's does not)
+        { const ExecObs *o0 = obs_of(r, calls[0].opi);
+          if (o0 && (o->before.umask_v != o0->before.umask_v || o->after.umask_v != o0->before.umask_v || o->at_exec.umask_v != o0->before.umask_v))
+              return bad("process-wide-state-raced", "call #" + std::to_string(cv.opi) + " (thread " + std::to_string(o->thr) + "): the umask of the process is not what it was before the calls (before/at exec/after: " + std::to_string(o->before.umask_v) + "/" + std::to_string(o->at_exec.umask_v) + "/" + std::to_string(o->after.umask_v) + ", originally " + std::to_string(o0->before.umask_v) + ")");
+          if (o0 && (o->before.cwd != o0->before.cwd || o->after.cwd != o0->before.cwd)) return bad("process-wide-state-raced", "call #" + std::to_string(cv.opi) + ": the working directory of the process changed"); }
         if (cv.op->faults.empty()) {
             RecJudge j = judge_record(cv, r);
             // stdout and stderr are buffers shared by the threads: whoever flushes carries out the records of the others too, so the bytes
